@@ -26,7 +26,8 @@ RULE = ("suite ops: random op sequences of length 5..60 over set/update (copy=Tr
         "exactly after every op (regime X: no arithmetic).  Non-trivial = the sequence performs at least one commit, one "
         "accessor/export that returns an array and one scribble that overwrites a non-empty returned array.  "
         "suite sampler: Sampler(clustering=False) runs of 3..7 iterations with scribbling on the outputs of sample(), "
-        "posterior(), results(), state.to_dict(); the mutator calls of the pipeline are replayed on the model; per iteration "
+        "posterior() for all 8 combinations of return_logw x trim_importance_weights x resample (re-read with the same random "
+        "stream), results(), state.to_dict(), state.compute_logw_and_logz(1.0); the mutator calls of the pipeline are replayed on the model; per iteration "
         "exactly one batch is appended per recorded key and earlier batches are bit-identical.")
 MODELLED = ["array shapes/dtypes are not modelled: payload = flattened content; generated sequences keep one shape per key "
             "(np.array of a ragged list is outside the model)",
@@ -126,7 +127,27 @@ def well_formed(hist):
             and len(z) == len(b) and len(l) == len(b))
 
 
-def _show_results(res):
+def ref_logw(sm, beta=1.0, hist=None):
+    """what a fresh manager holding the same committed history (as read through get_history) computes:
+    logw is a function of the committed history only"""
+    from tempest.state_manager import StateManager
+    hist = read_history(sm) if hist is None else hist
+    if not hist["beta"]:
+        return np.array([])
+    clone = StateManager(2)
+    clone.update_from_dict({"_history": {k: list(hist[k]) for k in ("beta", "logz", "logl")}})
+    with warnings.catch_warnings():
+        warnings.simplefilter("ignore")
+        with np.errstate(all="ignore"):
+            return clone.compute_logw_and_logz(float(beta))[0]
+
+
+def _show_logw(v, ref):
+    v = np.asarray(v)
+    return f"{int(v.size)}:{'ok' if _same(v, np.asarray(ref)) else 'BAD'}"
+
+
+def _show_results(res, ref=None):
     d = {}
     for k, v in res.items():
         d[k] = v
@@ -134,7 +155,8 @@ def _show_results(res):
     for k in sorted(d):
         v = d[k]
         if k == "logw":
-            items.append(f"logw:S{int(np.asarray(v).size)}")
+            good = ref is None or _same(np.asarray(v), np.asarray(ref))
+            items.append(f"logw:S{int(np.asarray(v).size)}" if good else "logw:BAD")
             continue
         s = _pv(v)
         if s in ("N", "A"):
@@ -143,7 +165,7 @@ def _show_results(res):
     return ",".join(items) + f";n={len(d)}"
 
 
-def digest(sm, r, enc=None, with_results=True):
+def digest(sm, r, enc=None, with_results=True, check_cached_logw=True):
     with warnings.catch_warnings():
         warnings.simplefilter("ignore")
         cur = sm.get_current()
@@ -152,13 +174,17 @@ def digest(sm, r, enc=None, with_results=True):
         if not with_results:
             return s
         if not well_formed(hist):
-            return s + "#R=skip"
+            return s + "#R=skip#W=skip"
+        ref = ref_logw(sm, 1.0, hist)
         try:
             with np.errstate(all="ignore"):
                 res = sm.compute_results()
-            return s + "#R=" + _show_results(res)
+            s += "#R=" + _show_results(res, ref if check_cached_logw else None)
         except (ValueError, IndexError, KeyError) as e:
-            return s + "#R=" + _err(e)
+            s += "#R=" + _err(e)
+        with np.errstate(all="ignore"):
+            lw = sm.compute_logw_and_logz(1.0)[0]
+        return s + "#W=" + _show_logw(lw, ref)
 
 
 # ------------------------------------------------------------------ executing op tokens on the real object
@@ -168,6 +194,8 @@ class Real:
         self.sm = StateManager(2)
         self.recs = []          # per op: (list of arrays the caller obtained, export dict or None)
         self.stats = {"commit": 0, "arrays_out": 0, "scribbled": 0}
+        self.imp_h = []         # arrays that entered _history by reference (update_from_dict): sharing them is the caller's choice
+        self.stale = False      # the caller wrote into such an array after which no mutator ran: a cached results() may lag behind
 
     # -- argument parsing mirrors Drv/C17.lean: None => malformed
     def _arg(self, t):
@@ -233,6 +261,8 @@ class Real:
                 for a in self.recs[int(f[1])][0]:
                     if a.size:
                         self.stats["scribbled"] += 1
+                    if any(a is b for b in self.imp_h):
+                        self.stale = True
                     a[...] = int(f[2])
                 out = ("U", [], None)
         elif kind == "set" and len(f) == 4:
@@ -274,7 +304,14 @@ class Real:
                 out = ("skip", [], None)
             else:
                 out = self._call(lambda: sm.compute_results(),
-                                 lambda v: ("D:" + _show_results(v), self._arrays(v), None))
+                                 lambda v: ("D:" + _show_results(v, None if self.stale else ref_logw(sm, 1.0)), self._arrays(v), None))
+        elif kind == "logw" and len(f) == 2 and _lean_int(f[1]):
+            if not well_formed(read_history(sm)):
+                out = ("skip", [], None)
+            else:
+                ref = ref_logw(sm, int(f[1]))
+                out = self._call(lambda: sm.compute_logw_and_logz(float(int(f[1]))),
+                                 lambda v: ("L:" + _show_logw(v[0], ref), self._arrays(v[0]), None))
         elif tok == "todict":
             out = self._call(lambda: sm.to_dict(),
                              lambda v: ("X:" + _show_dict(v["_current"]) + ";" + _show_hist(v["_history"]),
@@ -293,8 +330,12 @@ class Real:
                 elif "z" in f[2]:
                     d["_history"] = {"zz": []}
                 out = self._call(lambda: sm.update_from_dict(d), lambda v: ("U", [], None))
+                if "h" in f[2]:
+                    self.imp_h += self._arrays(d["_history"])
         self.recs.append((out[1], out[2]))
         self.stats["arrays_out"] += sum(1 for a in out[1] if a.size)
+        if out[0] == "U" and kind in ("set", "upd", "commit", "imp"):
+            self.stale = False          # _invalidate_cache() ran
         return out[0]
 
 
@@ -309,7 +350,7 @@ def run_real(tokens):
     out = []
     for t in tokens:
         res = r.exec(t)
-        out.append(digest(r.sm, res))
+        out.append(digest(r.sm, res, check_cached_logw=not r.stale))
     return out, r
 
 
@@ -383,7 +424,7 @@ class Gen:
             self.emit(f"upd:{k1}~{self.fresh(k1)},bogus~S1,x9~N:{self.rng.choice('01')}", ("other",))
         elif r == 6:
             self.emit(self.rng.choice(["frob", "commit", "commit:2", "set:u", "get", "todict:1", "results:0", "geth:u:x:0",
-                                       "geth:u:0:2", "set:u:Q:1", "set:u:A1.x:1", "set:u:S:1", "upd:u:1", "scr:0", "imp:0"]),
+                                       "geth:u:0:2", "logw", "logw:x", "logw:1:1", "set:u:Q:1", "set:u:A1.x:1", "set:u:S:1", "upd:u:1", "scr:0", "imp:0"]),
                       ("other",))
         elif r == 7:
             self.emit(f"scr:{len(self.toks) + self.rng.randint(0, 40)}:{SENTINEL}", ("other",))
@@ -438,9 +479,11 @@ class Gen:
         elif r < 0.76:
             self.emit(f"commit:{'1' if rng.random() < 0.1 else '0'}", ("commit",))
             self.commits += 1
-        elif r < 0.82:
+        elif r < 0.80:
             acc = self.emit("results", ("acc",))
-        elif r < 0.88:
+        elif r < 0.84:
+            acc = self.emit(f"logw:{rng.choice([1, 1, 1, 0, 2])}", ("acc",))
+        elif r < 0.89:
             acc = self.emit("todict", ("export",))
         elif r < 0.91:
             ex = [i for i, m in enumerate(self.meta) if m[0] == "export"]
@@ -542,6 +585,7 @@ def correspond_ops(tier):
 
 
 FIXED = [
+    "set:beta:S1:1;set:logz:S0:1;set:logl:A5.6:1;commit:0;logw:1;scr:4:-9;logw:1;results;scr:7:-9;logw:1;commit:0;logw:2;scr:11:-9;logw:2;logw:1",
     "set:u:A3.4:1;commit:0;todict;scr:2:-9;get:u;geth:u:0:0",
     "set:u:A3.4:1;set:logl:A5.6:1;set:beta:S0:1;set:logz:S0:1;commit:0;results;scr:5:-9;results",
     "set:u:A3.4:1;set:logl:A5.6:1;set:beta:S0:1;commit:0;getall;scr:4:-9;getl:u;scr:6:-9;geth:u:0:0;scr:8:-9;geth:u:*:0;scr:10:-9;getall",
@@ -716,8 +760,6 @@ def _sampler_run(seed, n_iter, rng, c, do_scribble):
                 c.count("iterations")
             # the caller scribbles on what it was given, in random order / subset
             if rng.random() < 0.8:
-                outs.append(("posterior", s.posterior(resample=rng.random() < 0.3, return_logw=rng.random() < 0.5), None))
-            if rng.random() < 0.8:
                 outs.append(("results", s.results(), None))
             if rng.random() < 0.8:
                 i_td = len(toks) + len(rec.toks)
@@ -738,6 +780,37 @@ def _sampler_run(seed, n_iter, rng, c, do_scribble):
                 for k in HIST_KEYS:
                     if len(now[1][k]) != len(after[1][k]) or not all(_same(x, y) for x, y in zip(after[1][k], now[1][k])):
                         problems.append(f"iteration {it}: scribbling on {name}() output changed history[{k}]")
+            # posterior(): every option combination, every output overwritten, then re-read with the same random stream
+            for rl in (False, True):
+                for tr in (True, False):
+                    for rs in (False, True):
+                        kw = dict(resample=rs, return_logw=rl, trim_importance_weights=tr)
+                        rs_state = np.random.get_state()
+                        out = s.posterior(**kw)
+                        snap = [np.array(a, copy=True) for a in out]
+                        n = _scribble(out) if do_scribble else 0
+                        if c is not None:
+                            c.count("scribbled:posterior", n)
+                            c.count("posterior_calls")
+                        np.random.set_state(rs_state)
+                        out2 = s.posterior(**kw)
+                        if len(out2) != len(snap) or not all(_same(np.asarray(x), np.asarray(y)) for x, y in zip(snap, out2)):
+                            problems.append(f"iteration {it}: posterior({kw}) differs after the caller overwrote the arrays "
+                                            f"returned by the previous identical call")
+            # compute_logw_and_logz(): twice around a scribble
+            with np.errstate(all="ignore"):
+                lw1 = sm.compute_logw_and_logz(1.0)[0]
+                snap = np.array(lw1, copy=True)
+                if do_scribble and isinstance(lw1, np.ndarray) and lw1.size:
+                    lw1[...] = SENTINEL
+                lw2 = sm.compute_logw_and_logz(1.0)[0]
+            if not _same(np.asarray(lw2), snap):
+                problems.append(f"iteration {it}: compute_logw_and_logz(1.0) differs after the caller overwrote the array "
+                                f"returned by the previous call")
+            now = _snapshot(sm)
+            for k in HIST_KEYS:
+                if len(now[1][k]) != len(after[1][k]) or not all(_same(x, y) for x, y in zip(after[1][k], now[1][k])):
+                    problems.append(f"iteration {it}: scribbling on posterior()/logw outputs changed history[{k}]")
             # public re-reads after all the scribbling
             cur2 = sm.get_current()
             for k in cur2:
@@ -758,7 +831,7 @@ def _sampler_run(seed, n_iter, rng, c, do_scribble):
 
 
 def correspond_sampler(tier):
-    n = 24 if tier == "quick" else 200
+    n = 18 if tier == "quick" else 150
     rng = common.rng_for("C17.sampler")
     c = Corr("sampler-iterations", "exact (recorded mutator calls replayed on the reference model; values named by content)")
     drv = common.Driver()
@@ -805,8 +878,10 @@ def _frozen(v):
     return v.copy() if isinstance(v, np.ndarray) else v
 
 
-def _state_reads(sm):
-    """all observable reads, as comparable python objects (bitwise); every array is copied by the oracle itself"""
+def _state_reads(sm, betas=(1.0,)):
+    """all observable reads, as comparable python objects (bitwise); every array is copied by the oracle itself.
+    `betas`: arguments with which compute_logw_and_logz is read (the oracle re-reads with the argument the caller used last,
+    so that its own reads do not displace whatever an implementation may have memoised for that call)"""
     with warnings.catch_warnings():
         warnings.simplefilter("ignore")
         cur = {k: _frozen(v) for k, v in sm.get_current().items()}
@@ -815,10 +890,24 @@ def _state_reads(sm):
         if well_formed(hist):
             try:
                 with np.errstate(all="ignore"):
+                    sm.compute_results()       # first call may (re)fill the cache; the read that counts is the settled one
+            except Exception:  # noqa
+                pass
+            try:
+                with np.errstate(all="ignore"):
                     res = {k: _frozen(v) for k, v in sm.compute_results().items()}
             except Exception as e:  # noqa
                 res = {"__error__": type(e).__name__}
-    return cur, hist, res
+        lw = None
+        if well_formed(hist):
+            lw = {}
+            for b in betas:
+                try:
+                    with np.errstate(all="ignore"):
+                        lw[b] = _frozen(np.asarray(sm.compute_logw_and_logz(b)[0]))
+                except Exception as e:  # noqa
+                    lw[b] = type(e).__name__
+    return cur, hist, res, lw
 
 
 def _cmp_reads(a, b):
@@ -838,6 +927,12 @@ def _cmp_reads(a, b):
         for k in a[2]:
             if k not in b[2] or not _same(a[2][k], b[2][k]):
                 return f"compute_results()['{k}']"
+    if (a[3] is None) != (b[3] is None):
+        return "compute_logw_and_logz() availability"
+    if a[3] is not None:
+        for k in a[3]:
+            if not _same(a[3][k], b[3][k]):
+                return f"compute_logw_and_logz({k})"
     return None
 
 
@@ -850,9 +945,10 @@ def oracle(tokens):
     imp_c = []             # arrays stored by reference into _current on request (copy=False / imported "_current" section)
     imp_h = []             # arrays stored by reference into _history on request (imported "_history" section)
     isin = lambda a, l: any(a is b for b in l)  # noqa
+    betas = (1.0,)
     for j, t in enumerate(tokens):
         f = t.split(":")
-        before = _state_reads(r.sm)
+        before = _state_reads(r.sm, betas)
         kind = f[0]
         tgt = []
         if kind == "scr" and len(f) == 3 and f[1].isdigit() and int(f[1]) < len(r.recs):
@@ -861,7 +957,10 @@ def oracle(tokens):
         shared_c = any(isin(a, imp_c) for a in tgt)
         held = [a for i in _refs(t) if i < len(r.recs) for a in r.recs[i][0]]
         res = r.exec(t)
-        after = _state_reads(r.sm)
+        if f[0] == "logw" and res[:2] == "L:":
+            betas = (float(int(f[1])),)
+            before = before[:3] + (_state_reads(r.sm, betas)[3],)
+        after = _state_reads(r.sm, betas)
         # ghost bookkeeping of opt-in sharing
         if res != "bad-op":
             if kind in ("set", "upd") and t.endswith(":0"):
@@ -877,7 +976,7 @@ def oracle(tokens):
                 continue
             if shared_c:
                 # an array shared with _current on request: history and results must still be untouched
-                d = _cmp_reads(({}, before[1], before[2]), ({}, after[1], after[2]))
+                d = _cmp_reads(({}, before[1], before[2], before[3]), ({}, after[1], after[2], after[3]))
                 if d:
                     return f"op {j} `{t}`: overwriting an array that was stored with copy=False changed {d}"
                 continue
